@@ -111,6 +111,47 @@ func c10Check(cs *drv.Case, frame []byte, stream bool) {
 			}
 		}()
 	}
+	if stream && reason == "" && len(frame) < 4000 {
+		// the same frame as the SECOND thing on a reader that has not been released since it
+		// delivered a preface: lengths are about the frame, not about the reader's position
+		func() {
+			defer func() {
+				if r := recover(); r != nil {
+					d := detail()
+					d["panic"] = fmt.Sprint(r)
+					cs.Fail("decode-panic", M{"via": "second-frame"}, d)
+				}
+			}()
+			pre := make([]byte, 1+cs.R.Intn(40))
+			all := append(append(append([]byte(nil), pre...), frame...), 0xAA, 0xBB)
+			for _, bytesBacked := range []bool{true, false} {
+				var rd bufiox.Reader
+				if bytesBacked {
+					rd = bufiox.NewBytesReader(all)
+				} else {
+					rd = bufiox.NewDefaultReader(&doubles.Source{Data: all, Len: len(all), ErrAt: len(all), Err: io.EOF, Sched: cs.R.Intn(doubles.NSched), R: cs.R, Budget: 10*len(all) + 100000})
+				}
+				rd.Next(len(pre))
+				before := rd.ReadLen()
+				dp, err := ttheader.Decode(ctx, rd)
+				n := rd.ReadLen() - before
+				rd.Release(nil)
+				if err != nil {
+					d := detail()
+					d["message"] = fmt.Sprintf("a frame that decodes on a fresh reader fails (%v) when %d bytes were consumed before it", err, len(pre))
+					cs.Fail("decode-depends-on-reader-position", M{"what": "error"}, d)
+					return
+				}
+				if dp.HeaderLen != od.HeaderLen || int64(dp.PayloadLen) != od.PayloadLen || n != od.HeaderLen {
+					d := detail()
+					d["message"] = fmt.Sprintf("after a %d-byte preface: HeaderLen %d PayloadLen %d consumed %d, want %d / %d / %d", len(pre), dp.HeaderLen, dp.PayloadLen, n, od.HeaderLen, od.PayloadLen, od.HeaderLen)
+					cs.Fail("decode-depends-on-reader-position", M{"what": "lengths"}, d)
+					return
+				}
+			}
+			cs.C.Obs("second-frame decodes", 1)
+		}()
+	}
 	if stream {
 		func() {
 			defer func() {
@@ -135,6 +176,15 @@ func validInfo(cs *drv.Case, order string) []byte {
 	r := cs.R
 	info := []byte{[]byte{0, 3, 4, 0x10, 0x11}[r.Intn(5)], 0}
 	str := func() string { return string(gen.Bytes(r, r.Intn(6))) }
+	key := func() string {
+		switch r.Intn(12) {
+		case 0:
+			return ref.TokenKey // the ACL-token key travelling as an ordinary string entry
+		case 1:
+			return "rpc_transit_gdpr-token"
+		}
+		return str()
+	}
 	for _, ch := range order {
 		switch ch {
 		case 't':
@@ -145,7 +195,7 @@ func validInfo(cs *drv.Case, order string) []byte {
 			info = append(info, 0x01)
 			info = ref.U16(info, uint16(n))
 			for i := 0; i < n; i++ {
-				info = ref.TTHStr2(info, str())
+				info = ref.TTHStr2(info, key())
 				info = ref.TTHStr2(info, str())
 			}
 		case 'i':
